@@ -30,12 +30,30 @@ func patOf(s string) []int {
 }
 
 func (e *scriptEnv) execFind(op string, h handle, a []string) (string, bool) {
+	mutating := false
+	switch op {
+	case "findm", "findrm", "mm", "bmm": // C14: the caller overwrites the pattern while the iterator is live
+		mutating = true
+		op = map[string]string{"findm": "find", "findrm": "findr", "mm": "m", "bmm": "bm"}[op]
+	}
 	switch op {
 	case "ff", "ffn", "fa", "fl", "fln", "find", "findr", "m", "m2", "bm":
 	default:
 		return "", false
 	}
 	pat := patOf(a[2])
+	origPat := append([]int(nil), pat...)
+	clobber := func() {
+		if mutating {
+			for i := range pat {
+				pat[i] = 9 - pat[i]
+			}
+		}
+	}
+	defer func() {
+		// restore (statements do not share the slice, but keep the harness honest)
+		copy(pat, origPat)
+	}()
 	n := 0
 	if len(a) > 3 {
 		n = atoi(a[3])
@@ -44,6 +62,9 @@ func (e *scriptEnv) execFind(op string, h handle, a []string) (string, bool) {
 		var out []int
 		for i := 0; i < k; i++ {
 			out = append(out, f())
+			if i == 0 {
+				clobber()
+			}
 		}
 		return intsString(out)
 	}
@@ -102,6 +123,7 @@ func (e *scriptEnv) execFind(op string, h handle, a []string) (string, bool) {
 			return "-", true
 		}
 		seq := sq3.Matches(s, pat)
+		clobber()
 		run := func() string {
 			var out []int
 			ended := true
@@ -143,6 +165,7 @@ func (e *scriptEnv) execFind(op string, h handle, a []string) (string, bool) {
 			return "-", true
 		}
 		seq := sq3.BackwardMatches(fs, pat)
+		clobber()
 		run := func() string { return intsString(slices.Collect(takeSeq(seq, n))) }
 		r1 := run()
 		if r2 := run(); r2 != r1 {
